@@ -557,7 +557,7 @@ func main() {
 	runner.Main(&runner.Harness{
 		ID:    "C05",
 		Level: "model_checking",
-		Rule:  "TCP (Server.handle over a virtual connection) and UDP (servePacket/packetConn over a virtual socket) x matching timeouts {0.3,1,2.5,3 s} x wall-clock phase within the second {0,.3,.7,.999} x route lists {always undecided, non-terminal route then undecided, subroute with its own undecided list, decided after 3 bytes, needs more than the buffer limit} x clients {silent, one byte every 0.1/0.4/1.1 s, half-close, flood of limit+3 chunks, late second write after the timeout}; every interleaving / early timer / select alternative / short read within the joint deviation budget (delay bounding; 3 quick, 4 thorough; one less for timeouts above 0.3 s); virtual clock, exact timestamps from the code's own log entries",
+		Rule:  "TCP (Server.handle over a virtual connection) and UDP (servePacket/packetConn over a virtual socket) x matching timeouts {0.3,1,2.5,3 s} x wall-clock phase within the second {0,.3,.7,.999} x route lists {always undecided, non-terminal route then undecided, subroute with its own undecided list, decided after 3 bytes, needs more than the buffer limit} x clients {silent, one byte every 0.1/0.4/1.1 s, half-close, flood of limit+3 chunks, late second write after the timeout}; every interleaving / early timer / select alternative / short read within the joint deviation budget (delay bounding; 3 quick, 4 thorough; one less for timeouts above 0.3 s); virtual clock, exact timestamps from the code's own log entries; route list httpbig: the shipped http matcher inside a subroute followed by another handler, against a request line followed by a never-ending header block in three shapes (one long value, many CRLF lines, LF-only lines)",
 		Assumptions: []string{
 			"computation takes no virtual time; 'not before the timeout' is asserted on every execution, 'not after' only on executions without timer deviations",
 			"zap is given the virtual clock; the moment matching ends is the timestamp of the code's own 'matching connection' log entry",
